@@ -264,8 +264,12 @@ float32_be_read (const unsigned char *cptr)
 	if (! (exponent || mantissa))
 		return 0.0 ;
 
-	mantissa |= 0x800000 ;
-	exponent = exponent ? exponent - 127 : 0 ;
+	if (exponent)
+	{	mantissa |= 0x800000 ;
+		exponent -= 127 ;
+		}
+	else
+		exponent = -126 ;
 
 	fvalue = mantissa ? ((float) mantissa) / ((float) 0x800000) : 0.0 ;
 
@@ -292,8 +296,12 @@ float32_le_read (const unsigned char *cptr)
 	if (! (exponent || mantissa))
 		return 0.0 ;
 
-	mantissa |= 0x800000 ;
-	exponent = exponent ? exponent - 127 : 0 ;
+	if (exponent)
+	{	mantissa |= 0x800000 ;
+		exponent -= 127 ;
+		}
+	else
+		exponent = -126 ;
 
 	fvalue = mantissa ? ((float) mantissa) / ((float) 0x800000) : 0.0 ;
 
